@@ -19,14 +19,14 @@ import (
 
 // Chunking policies (per direction).
 const (
-	ChunkBurst = iota // one written burst per delivery
-	ChunkAll          // everything in flight
-	ChunkMSS          // at most 1448 bytes
-	ChunkTiny         // 1..7 bytes
-	ChunkOne          // exactly 1 byte
-	ChunkRand         // 1..available
-	ChunkBoundary     // next write boundary -1/0/+1
-	ChunkMix          // one of the above per delivery
+	ChunkBurst    = iota // one written burst per delivery
+	ChunkAll             // everything in flight
+	ChunkMSS             // at most 1448 bytes
+	ChunkTiny            // 1..7 bytes
+	ChunkOne             // exactly 1 byte
+	ChunkRand            // 1..available
+	ChunkBoundary        // next write boundary -1/0/+1
+	ChunkMix             // one of the above per delivery
 	NumChunk
 )
 
